@@ -466,6 +466,12 @@ def c18_literals(g, n):
             sc = str(c)
             j = r.randrange(1, len(sc))
             lits.append(f"{sc[:-j]}.{sc[-j:]}e{e + j}")
+    # long but harmless literals (leading zeros, fractional zeros compensated by the exponent): longer than any "maximal" literal
+    for _ in range(12):
+        ip = "0" * r.randrange(25, 60) + str(r.randrange(1, 10 ** r.randrange(1, 15)))
+        fz = r.randrange(20, 45)
+        e = r.randrange(fz - 18 if fz > 18 else 0, fz + 3)
+        lits.append(r.choice(["", "-"]) + ip + "." + g.digits(r.randrange(0, 4)) + "0" * fz + f"e{e}")
     if len(lits) > n:
         head = lits[:40]
         rest = lits[40:]
